@@ -15,7 +15,7 @@ import time
 
 ROOT = os.path.dirname(os.path.dirname(os.path.abspath(__file__)))
 SEEDED = os.path.join(ROOT, "seeded")
-REPO = "/repo"
+REPO = os.environ.get("VF_REPO", "/repo")
 TIER = os.environ.get("SEEDED_TIER", "quick")
 
 
